@@ -8,7 +8,7 @@ from ..engine import SCHED, SEQ, Engine
 from ..model import AnalysisError, dotted, norm
 from ..report import Report
 from .. import sym
-from .symutil import S, all_of, any_lit, arg, has, is_, mentions, sh, unobj
+from .symutil import S, all_of, any_lit, arg, elem_of, has, is_, mentions, sh, unobj
 
 EXPLANATION = (
     "FLOW/PASS over the phase-reference bookkeeping: _PhaseTracker._format is `phi % (2*pi)` and is applied at every write of the phase list (constructor and __setitem__); increment_phase writes "
@@ -95,7 +95,7 @@ def run(E: Engine, rep: Report, tier: str) -> dict:
         if t is None or t[0] != "comp" or len(t[3]) != 1:
             return False
         m = is_(t[2], f"self._basis_ref[Q_b][Q_q].phase.{field}") or is_(t[2], f"float(self._basis_ref[Q_b][Q_q].phase.{field})")
-        return m is not None and m["Q_b"] == basis and t[3][0][0] == ("attr", last, "targets") and m["Q_q"] == ("elem", t[3][0][0])
+        return m is not None and m["Q_b"] == basis and t[3][0][0] == ("attr", last, "targets") and elem_of(m["Q_q"], t[3][0][0])
 
     pr = arg(c_v[-1], 2, "phase_ref")
     m = has(pr, "Q_c.pop()")
@@ -122,7 +122,7 @@ def run(E: Engine, rep: Report, tier: str) -> dict:
     ok = bool(ulu_calls)
     for l in ulu_calls:
         recv = is_(l.target[1], "self._basis_ref[Q_b][Q_q]")
-        ok = ok and recv is not None and recv["Q_b"] == basis and recv["Q_q"] == ("elem", ("attr", last, "targets")) and arg(l, 0) == ("attr", last, "tf") and own.index(l) > own.index(c_ap[-1])
+        ok = ok and recv is not None and recv["Q_b"] == basis and elem_of(recv["Q_q"], ("attr", last, "targets")) and arg(l, 0) == ("attr", last, "tf") and own.index(l) > own.index(c_ap[-1])
     rep.check(ok, "FLOW", "Sequence._add|update_last_used(new-slot-end)", "each target's last_used is advanced to the new pulse's end", "last_used is no longer advanced, for each target of the pulse, to the end of the channel's last slot read after add_pulse", E.where(add))
     c_ps = [l for l in own if l.kind == "call" and l.target == ("attr", ("name", "self"), "_phase_shift")]
     ok = bool(c_ps)
